@@ -223,4 +223,18 @@ def childHasFocus : List Line := [
   ⟨1, .returnS, (.var "true"), .none⟩,
   ⟨0, .returnS, (.var "false"), .none⟩]
 
+/-- `focusHandler.findPath` -/
+def findPath : List Line := [
+  ⟨0, .assign, (.var "r.path"), (.lit "[]Widget{}")⟩,
+  ⟨0, .define, (.var "v0"), (.arg (.call (.var "r.childHasFocus")) (.var "r.lastFrame"))⟩,
+  ⟨0, .ifS, (.bin "||" (.bin "!=" (.var "r.root") (.var "r.lastFrame.Widget")) (.bin "==" (.arg (.call (.var "len")) (.var "r.path")) (.int 0))), .none⟩,
+  ⟨1, .assign, (.var "r.path"), (.arg (.arg (.call (.var "append")) (.var "r.path")) (.var "r.root"))⟩,
+  ⟨0, .forInit, .none, .none⟩,
+  ⟨1, .define, (.var "v1"), (.int 0)⟩,
+  ⟨0, .forS, (.bin "<" (.var "v1") (.bin "/" (.arg (.call (.var "len")) (.var "r.path")) (.int 2))), .none⟩,
+  ⟨1, .assign, (.pair (.index (.var "r.path") (.var "v1")) (.index (.var "r.path") (.bin "-" (.bin "-" (.arg (.call (.var "len")) (.var "r.path")) (.int 1)) (.var "v1")))), (.pair (.index (.var "r.path") (.bin "-" (.bin "-" (.arg (.call (.var "len")) (.var "r.path")) (.int 1)) (.var "v1"))) (.index (.var "r.path") (.var "v1")))⟩,
+  ⟨1, .forPost, .none, .none⟩,
+  ⟨2, .addAssign, (.var "v1"), (.int 1)⟩,
+  ⟨0, .returnS, (.var "v0"), .none⟩]
+
 end VaxisModel.Lemmas.VxfwBodyExpected
